@@ -511,6 +511,101 @@ func HEIFWrap(rt *rapid.T, edits ...func(meta *Box)) func(payload []byte) []byte
 	return wrapped
 }
 
+// ---- deterministic minimal containers with an explicit amount of padding in front of the block ----
+
+// PadJPEG: SOI, [COM segments totalling pad bytes], APP1-Exif, DQT, SOS + data, EOI. pad = 0 or >= 4.
+func PadJPEG(payload []byte, pad int) []byte {
+	var segs []Seg
+	for pad > 0 {
+		n := pad
+		if n > 60000 {
+			n = 60000
+			if pad-n < 4 {
+				n -= 4
+			}
+		}
+		segs = append(segs, Seg{Marker: 0xFE, Payload: spaces(n - 4), Kind: "pad"})
+		pad -= n
+	}
+	segs = append(segs, Seg{Marker: 0xE1, Payload: append([]byte(ExifPrefix), payload...), Kind: "exif"}, DQT())
+	return JPEGStream(segs, []byte{0xFF, 0xDA, 0x00, 0x08, 0x01, 0x01, 0x00, 0x00, 0x3F, 0x00, 0x12, 0x34, 0xFF, 0xD9})
+}
+
+// PadPNG: signature, IHDR, [tEXt chunk of pad bytes in total], eXIf, IDAT, IEND. pad = 0 or >= 20.
+func PadPNG(payload []byte, pad int) []byte {
+	out := []byte("\x89PNG\r\n\x1a\n")
+	out = append(out, pngChunk("IHDR", []byte{0, 0, 0, 16, 0, 0, 0, 16, 8, 2, 0, 0, 0})...)
+	if pad > 0 {
+		out = append(out, pngChunk("tEXt", append([]byte("Comment\x00"), spaces(pad-20)...))...)
+	}
+	out = append(out, pngChunk("eXIf", payload)...)
+	out = append(out, pngChunk("IDAT", []byte{0x78, 0x9c, 0x03, 0x00, 0x00, 0x00, 0x00, 0x01})...)
+	return append(out, pngChunk("IEND", nil)...)
+}
+
+// PadCR3: ftyp, moov{[free], uuid Canon{CNCV, CTBO, [free], CMT1}}, mdat; the free box (pad bytes in total, 0 or >= 8)
+// is the first child of moov (at = 0) or sits in front of CMT1 (at = 1).
+func PadCR3(payload []byte, pad, at int) []byte {
+	cncv := make([]byte, 30)
+	copy(cncv, "CanonCR3_001/00.09.00/00.00.00")
+	canon := &Box{Type: "uuid", Data: append([]byte{}, UUIDCanon...), Kids: []*Box{{Type: "CNCV", Data: cncv}, {Type: "CTBO", Data: make([]byte, 84)}}}
+	moov := &Box{Type: "moov"}
+	if pad > 0 && at == 0 {
+		moov.Kids = append(moov.Kids, &Box{Type: "free", Data: spaces(pad - 8)})
+	}
+	if pad > 0 && at != 0 {
+		canon.Kids = append(canon.Kids, &Box{Type: "free", Data: spaces(pad - 8)})
+	}
+	canon.Kids = append(canon.Kids, &Box{Type: "CMT1", Data: payload})
+	moov.Kids = append(moov.Kids, canon)
+	out := Ftyp("crx ", 1, "crx ", "isom").Serialise(0)
+	out = append(out, moov.Serialise(len(out))...)
+	return append(out, (&Box{Type: "mdat", Data: make([]byte, 64)}).Serialise(len(out))...)
+}
+
+// PadHEIF: ftyp, meta{hdlr, pitm, iinf, iloc, [free]}, [free], mdat{[spaces] item}; pad bytes (0 or >= 8) as the last
+// child of meta (at = 0), between meta and mdat (at = 1) or inside mdat in front of the item (at = 2).
+func PadHEIF(payload []byte, pad, at int) []byte {
+	infe := func(id uint16, typ string) *Box {
+		return &Box{Type: "infe", Full: true, VerFlags: 2 << 24, Data: append(append([]byte{byte(id >> 8), byte(id), 0, 0}, typ...), 0)}
+	}
+	iloc := &Box{Type: "iloc", Full: true, Data: make([]byte, 18)}
+	meta := &Box{Type: "meta", Full: true, Kids: []*Box{
+		{Type: "hdlr", Full: true, Data: append(append(make([]byte, 4), "pict"...), make([]byte, 13)...)},
+		{Type: "pitm", Full: true, Data: []byte{0, 1}},
+		{Type: "iinf", Full: true, Data: []byte{0, 2}, Kids: []*Box{infe(1, "hvc1"), infe(2, "Exif")}}, iloc}}
+	item := append(append([]byte{0, 0, 0, 6}, ExifPrefix...), payload...)
+	mdat := &Box{Type: "mdat", Data: append(append([]byte{}, item...), make([]byte, 32)...)}
+	top := []*Box{Ftyp("heic", 0, "mif1", "heic"), meta}
+	inMdat := 0
+	switch {
+	case pad > 0 && at == 0:
+		meta.Kids = append(meta.Kids, &Box{Type: "free", Data: spaces(pad - 8)})
+	case pad > 0 && at == 1:
+		top = append(top, &Box{Type: "free", Data: spaces(pad - 8)})
+	case pad > 0:
+		inMdat = pad
+		mdat.Data = append(spaces(pad), mdat.Data...)
+	}
+	top = append(top, mdat)
+	serial := func() []byte {
+		var out []byte
+		for _, b := range top {
+			out = append(out, b.Serialise(len(out))...)
+		}
+		return out
+	}
+	serial()
+	d := iloc.Data
+	d[0] = 0x44
+	binary.BigEndian.PutUint16(d[2:], 1)
+	binary.BigEndian.PutUint16(d[4:], 2)
+	binary.BigEndian.PutUint16(d[8:], 1)
+	binary.BigEndian.PutUint32(d[10:], uint32(mdat.PayloadStart+inMdat))
+	binary.BigEndian.PutUint32(d[14:], uint32(len(item)))
+	return serial()
+}
+
 // WrapLying moves a run of parent's children into a new box whose declared size is wrong (it states more
 // than the parent holds, or less than its own children): a reader that cannot close the wrapper finds
 // the wrapped boxes at its position. Returns a description.
